@@ -45,7 +45,7 @@ label_st = st.one_of(st.none(), st.sampled_from(['job', 'a b', 'x', '<lambda>', 
 
 
 def budget(tier):
-    return dict(examples=3000 if tier == 'quick' else 100000)
+    return dict(examples=3000 if tier == 'quick' else 80000)
 
 
 @st.composite
